@@ -167,9 +167,18 @@ async fn run_srv(tok: &[&str]) -> String {
         ))
     };
     let mut map: ServerHandlerMap<TestHandler> = ServerHandlerMap::new();
-    let mut handlers = Vec::new();
+    let mut handlers: Vec<(u8, ServerHandlerType<TestHandler>)> = Vec::new();
     if tok[4] != "-" {
         for u in tok[4].split(';') {
+            if let Some((a, b)) = u.split_once('=') {
+                // the SAME handler object under a second unit id
+                let (a, b): (u8, u8) = (a.parse().unwrap(), b.parse().unwrap());
+                if let Some((_, h)) = handlers.iter().find(|(x, _)| *x == b).cloned() {
+                    handlers.push((a, h.clone()));
+                    map.add(UnitId::new(a), h);
+                }
+                continue;
+            }
             let (id, items) = u.split_once(':').unwrap();
             let unit: u8 = id.parse().unwrap();
             let h = TestHandler {
